@@ -160,10 +160,17 @@ class C11(PropBase):
         # resolved against the module further up the stack that does
         world["modules"].append({"name": "vwr", "future": False, "decls": []})
         env = self.base_env(rng, fault_free=True)
+        # a class created inside a function and bound to a module attribute afterwards: its qualified
+        # name ('_vw_make_VwLoc.<locals>.VwLoc') does not lead back to it, only the object does
+        loc = {"d": "dataclass", "n": "VwLoc", "fields": [{"n": "a", "t": {"k": "int"}}, {"n": "b", "t": {"k": "str"}, "default": ""}], "flags": {}, "local": True}
+        world["modules"][0]["decls"].append(loc)
+        lk[(mods[0], "VwLoc")] = {"m": mods[0], "n": "VwLoc", "decl": loc, "cat": "dataclass", "hashable": False, "rec": False, "key_ok": False}
         counter = [0]
         cases = []
         for _ in range(rng.randint(1, 4)):
             base = gen.root_types(view, rng, cfg, 1)[0]
+            if rng.random() < 0.25:
+                base = {"k": "ref", "m": mods[0], "n": "VwLoc"}
             if base["k"] == "none":
                 base = {"k": "int"}
             home = rng.choice(mods) if not any(n["k"] == "ref" for n in model.twalk(base)) else _home_of(base, mods)
@@ -177,9 +184,13 @@ class C11(PropBase):
                 hb, hw = f"VwHB{counter[0]}", f"VwHW{counter[0]}"
                 fb = {"n": "f", "t": base}
                 fw = {"n": "f", "t": wrapped}
-                home_decls.append({"d": "dataclass", "n": hb, "fields": [fb, {"n": "z", "t": {"k": "int"}, "default": 0}], "flags": {}})
-                home_decls.append({"d": "dataclass", "n": hw, "fields": [fw, {"n": "z", "t": {"k": "int"}, "default": 0}], "flags": {}, "resolve_refs_in": home})
+                # in half of the holders the bare type is met first (field e), so the wrapped field is a
+                # *revisit* of a type the graph already knows
+                lead = [{"n": "e", "t": copy.deepcopy(base)}] if rng.random() < 0.5 else []
+                home_decls.append({"d": "dataclass", "n": hb, "fields": lead + [fb, {"n": "z", "t": {"k": "int"}, "default": 0}], "flags": {}})
+                home_decls.append({"d": "dataclass", "n": hw, "fields": copy.deepcopy(lead) + [fw, {"n": "z", "t": {"k": "int"}, "default": 0}], "flags": {}, "resolve_refs_in": home})
                 case["holders"] = [hb, hw]
+                case["lead"] = bool(lead)
             cases.append(case)
         # string references inside declarations are written from the defining module
         for m in world["modules"]:
@@ -235,10 +246,11 @@ class C11(PropBase):
                 step["t_base"] = {"k": "ref", "m": c["home"], "n": hb}
                 step["t_wrapped"] = {"k": "ref", "m": c["home"], "n": hw}
                 if direction == "unmarshal":
-                    step["x"] = {"$dict": [["f", step["x"]], ["z", 1]]}
+                    step["x"] = {"$dict": ([["e", copy.deepcopy(step["x"])]] if c.get("lead") else []) + [["f", step["x"]], ["z", 1]]}
                 else:
-                    step["x_base"] = {"$obj": f"{c['home']}.{hb}", "f": {"f": copy.deepcopy(v), "z": 1}}
-                    step["x"] = {"$obj": f"{c['home']}.{hw}", "f": {"f": copy.deepcopy(v), "z": 1}}
+                    le = {"e": copy.deepcopy(v)} if c.get("lead") else {}
+                    step["x_base"] = {"$obj": f"{c['home']}.{hb}", "f": dict(copy.deepcopy(le), f=copy.deepcopy(v), z=1)}
+                    step["x"] = {"$obj": f"{c['home']}.{hw}", "f": dict(copy.deepcopy(le), f=copy.deepcopy(v), z=1)}
             else:
                 step["t_base"] = at_position(c["pos"], c["base"])
                 step["t_wrapped"] = resolve_refs(at_position(c["pos"], c["wrapped"]), issuing, c["home"])
@@ -387,7 +399,7 @@ def _same_modulo_holder(a, b, step) -> bool:
     if step["pos"] == "field" and step["dir"] in ("unmarshal", "codec"):
         # two holder classes: compare their fields
         try:
-            return model.same(a.f, b.f) and a.z == b.z
+            return model.same(a.f, b.f) and a.z == b.z and model.same(getattr(a, "e", None), getattr(b, "e", None))
         except AttributeError:
             return False
     return model.same(a, b)
